@@ -2,10 +2,10 @@ SPECIFICATION Spec
 CONSTANTS
   Prune = TRUE
   Dev_h12 = FALSE
-  Dev_h13 = TRUE
-  Dev_t127 = TRUE
-  Dev_mdict = TRUE
-  Dev_dparr = TRUE
+  Dev_h13 = FALSE
+  Dev_t127 = FALSE
+  Dev_mdict = FALSE
+  Dev_dparr = FALSE
   DocIds = {"D1", "D2", "D3", "D4"}
   V2Lens = {40, 128}
   V4Stm = {"RC4", "AES128", "Identity"}
@@ -19,7 +19,7 @@ CONSTANTS
   MaxDepth = 5
   Emit = TRUE
   KnownTags <- AllKnown
-INVARIANTS OnlyKnown JudgeTracks EmitInv
+INVARIANTS AsSpecified OnlyKnown JudgeTracks EmitInv
 CONSTRAINT Bound
 VIEW View
 CHECK_DEADLOCK FALSE
